@@ -191,13 +191,30 @@ func addressText() string {
 	return base58.Encode(addressBytes(key, 0, true))
 }
 
+// a decoded value must stay what it was: results handed out earlier are looked at again after later calls
+type held struct {
+	got  []byte // the slice that Decode returned (not copied)
+	was  []byte // a copy made at once
+	text string
+}
+
 func genBase58(count int) {
+	var keep []held
 	for i := 0; i < count; i++ {
+		if len(keep) >= 8 {
+			for _, h := range keep {
+				emit(rec{"fn": "held", "text": codes(h.text), "was": bytesOf(h.was), "now": bytesOf(h.got)})
+			}
+			keep = nil
+		}
 		switch rng.Intn(3) {
 		case 0:
 			b := someBytes()
 			t := base58.Encode(b)
 			d, err := base58.Decode(t)
+			if err == nil {
+				keep = append(keep, held{got: d, was: append([]byte{}, d...), text: t})
+			}
 			emit(rec{"fn": "enc", "bytes": bytesOf(b), "text": codes(t), "backOk": err == nil, "back": bytesOf(d)})
 		case 1:
 			t := mutateText(base58.Encode(someBytes()))
